@@ -50,6 +50,11 @@ type commitLog struct {
 	hwWaiters        map[contextReader]chan bool
 	leaderEpochCache *leaderEpochCache
 	deleted          bool
+	// appendMu serializes appends with the cleaner loop's segment roll. An
+	// append picks the active segment and its base offset before it writes; a
+	// roll in between (the cleaner loop rolls by age at any time) would start
+	// the new segment at the same base offset and hand it out twice.
+	appendMu sync.Mutex
 	Options
 }
 
@@ -223,6 +228,8 @@ func (l *commitLog) Append(msgs []*Message) ([]int64, error) {
 	if l.IsReadonly() {
 		return nil, ErrCommitLogReadonly
 	}
+	l.appendMu.Lock()
+	defer l.appendMu.Unlock()
 	if _, err := l.checkAndPerformSplit(); err != nil {
 		return nil, err
 	}
@@ -243,6 +250,8 @@ func (l *commitLog) Append(msgs []*Message) ([]int64, error) {
 // in readonly mode to allow for reconciliation, e.g. when replicating from
 // another log.
 func (l *commitLog) AppendMessageSet(ms []byte) ([]int64, error) {
+	l.appendMu.Lock()
+	defer l.appendMu.Unlock()
 	if _, err := l.checkAndPerformSplit(); err != nil {
 		return nil, err
 	}
@@ -791,8 +800,12 @@ func (l *commitLog) cleanerLoop() {
 			return
 		}
 
-		// Check to see if the active segment should be split.
+		// Check to see if the active segment should be split. Not while an
+		// append is in flight: it has already taken its base offset from the
+		// active segment.
+		l.appendMu.Lock()
 		split, err := l.checkAndPerformSplit()
+		l.appendMu.Unlock()
 		if err != nil {
 			l.Logger.Errorf("Failed to split log %s: %v", l.Path, err)
 			continue
